@@ -137,12 +137,23 @@ fn check_country(r: &mut Report, blocks: &[Block], h: u32, reg: &str, full: bool
 
 pub fn run(a: &Args, r: &mut Report) {
     r.exhaustive = true;
-    r.rule = "exhaustive: tail() on every address 0..2^24 (shard 0, with a registration->address map for injectivity) plus out-of-range 32-bit values (edges of 2^24, 2^31 and 2^32, a prime-stride sweep of the whole 32-bit space, every other top byte over addresses that have a registration, uniformly random values); every returned registration is judged against an Annex 7 mark table and against the registration pattern of the most specific address block in data/patterns.json; aircraft_information() on every address with a registration (thorough) or 1/8 of them (quick). distinct_nontrivial = number of distinct addresses that yield a registration".into();
+    r.rule = "exhaustive: tail() on every address 0..2^24 (shard 0, with a registration->address map for injectivity) the same answers must come back in descending and in scattered lookup order; plus out-of-range 32-bit values (edges of 2^24, 2^31 and 2^32, a prime-stride sweep of the whole 32-bit space, every other top byte over addresses that have a registration, uniformly random values); every returned registration is judged against an Annex 7 mark table and against the registration pattern of the most specific address block in data/patterns.json; aircraft_information() on every address with a registration (thorough) or 1/8 of them (quick). distinct_nontrivial = number of distinct addresses that yield a registration".into();
     r.assumptions.push("data/patterns.json start/end/country/pattern entries are the address-block table of the property; the nationality marks of the 21 mapped states are taken from ICAO Annex 7".into());
     let blocks = load_blocks();
     if let Some(p) = &a.replay {
         let v: serde_json::Value = serde_json::from_str(&std::fs::read_to_string(p).unwrap()).unwrap();
         let h = v["replay"]["hexid"].as_u64().unwrap() as u32;
+        if let Some(prev) = v["replay"]["previous"].as_u64() {
+            // a lookup that depended on the one before it: fresh answer, then the answer after the recorded predecessor
+            let fresh = guarded(|| tail(h)).ok().flatten();
+            let _ = guarded(|| tail(prev as u32));
+            let after = guarded(|| tail(h)).ok().flatten();
+            r.evaluations += 1;
+            if fresh != after {
+                r.violation("C14:depends-on-lookup-order:replay", format!("tail({h:06x}) = {fresh:?} at first, {after:?} after tail({prev:06x})"), json!({"hexid": h, "previous": prev}));
+            }
+            return;
+        }
         match guarded(|| tail(h)) {
             Err((loc, msg)) => r.violation(&format!("C14:panic:tail:{}", short_loc(&loc)), format!("tail({h:#x}) panicked: {msg}"), json!({"hexid": h})),
             Ok(Some(reg)) => check_country(r, &blocks, h, &reg, true),
@@ -179,6 +190,33 @@ pub fn run(a: &Args, r: &mut Report) {
                     r.sample(json!({"hexid": format!("{h:06x}"), "registration": reg, "block_country": block_of(&blocks, h).map(|b| b.country.clone())}));
                 }
             }
+        }
+    }
+    // the lookup is a function of the address alone: the answers of an ascending sweep (taken first) must come back when
+    // the addresses are asked in descending order and in a scattered order (odd multiplier modulo 2^24), whatever was
+    // looked up just before
+    let order = if a.nshards >= 3 { [None, Some("descending"), Some("scattered")].get(sh as usize).copied().flatten() } else if sh == 0 { Some("both") } else { None };
+    if let Some(kind) = order {
+        let key = |x: Option<String>| x.map(|s| crate::util::fnv(s.as_bytes()) | 1).unwrap_or(0);
+        let base: Vec<u64> = (0..(1u32 << 24)).map(|h| key(guarded(|| tail(h)).ok().flatten())).collect();
+        let mut pass = |name: &str, f: &dyn Fn(u32) -> u32| {
+            let mut n = 0u64;
+            for k in 0..(1u32 << 24) {
+                let h = f(k);
+                let got = guarded(|| tail(h)).ok().flatten();
+                r.evaluations += 1;
+                if key(got.clone()) != base[h as usize] {
+                    n += 1;
+                    r.violation(&format!("C14:depends-on-lookup-order:{name}"), format!("tail({h:06x}) = {got:?} when the addresses are asked in {name} order, another answer in ascending order (previous lookup: {:06x})", f(k.wrapping_sub(1)) & 0xFFFFFF), json!({"hexid": h, "order": name, "previous": f(k.wrapping_sub(1)) & 0xFFFFFF}));
+                }
+            }
+            r.class_n(&format!("lookup-order:{name}:addresses"), (1 << 24) - n);
+        };
+        if kind == "descending" || kind == "both" {
+            pass("descending", &|k| (1u32 << 24) - 1 - k);
+        }
+        if kind == "scattered" || kind == "both" {
+            pass("scattered", &|k| k.wrapping_mul(0x9E37_79B1) & 0xFF_FFFF);
         }
     }
     if sh == 0 {
